@@ -65,7 +65,7 @@ def strategy(tier):
         return _with_large(gen.rec_case(max_obj=5, max_sp=4, costs="coherent", labelled=True, max_fam=4, prescribed_root=True))
     if tier == "thorough":
         # beyond plain enumeration's comfort zone: the recursion oracle decides, cross-checked where enumeration still fits
-        return gen.rec_case(max_obj=7, max_sp=6, costs="coherent", labelled=True, max_fam=4, prescribed_root=True)
+        return _with_large(gen.rec_case(max_obj=7, max_sp=6, costs="coherent", labelled=True, max_fam=4, prescribed_root=True))
     return gen.rec_case(max_obj=5, max_sp=4, costs="coherent", labelled=True, max_fam=4, prescribed_root=True)
 
 
